@@ -258,13 +258,14 @@ Proof.
 Qed.
 
 (* ---------- blocks of mutations ---------- *)
-Inductive block := BCreate (s : N) | BUnlink (s : N) | BWrites (s : N) (xs : list bytes).
+Inductive block := BCreate (s : N) | BUnlink (s : N) | BWrites (s : N) (xs : list bytes) | BTruncSync (s n : N).
 
 Definition block_muts (b : block) : list mut :=
   match b with
   | BCreate s => [MCreate s; MDirSync]
   | BUnlink s => [MUnlink s; MDirSync]
   | BWrites s xs => map (MWrite s) xs ++ [MSync s]
+  | BTruncSync s n => tmuts s n
   end.
 
 Definition block_ok (d : fs) (b : block) : Prop :=
@@ -272,6 +273,7 @@ Definition block_ok (d : fs) (b : block) : Prop :=
   | BCreate s => fs_get d s = None
   | BUnlink _ => True
   | BWrites s _ => exists c0, fs_get d s = Some c0
+  | BTruncSync s n => exists c, fs_get d s = Some c /\ n < blen c
   end.
 
 Fixpoint blocks_ok (d : fs) (bs : list block) : Prop :=
@@ -528,13 +530,92 @@ Proof.
     rewrite crash_fs_none, firstn_all, Hvolfull. exact E.
 Qed.
 
+(* ftruncate, then fsync of the same file (logFile.Truncate since 09d27e0) *)
+Lemma file_states P d s c0 d' :
+  p_dirs P = [names d] -> ksorted d -> fs_get d s = Some c0 ->
+  (forall t b, t <> s -> fs_get d t = Some b -> p_files P t = [b]) ->
+  crash_cache P d' -> exists x, cand (p_files P s) x /\ d' = fs_set d s x.
+Proof.
+  intros Hd Hs Hg Ho (D & HD & Hn & Hcand). rewrite Hd in HD. destruct HD as [<-|[]].
+  assert (Hsd' : ksorted d') by (eapply ksorted_names; [exact Hn|exact Hs]).
+  assert (Hin : In s (names d')) by (rewrite Hn; eapply fs_get_in_names; exact Hg).
+  destruct (in_names_fs_get _ _ Hin) as (cs & Hcs).
+  assert (Hincs : In (s, cs) d').
+  { clear - Hcs. induction d' as [|[t b] d' IH]; [discriminate|]. cbn [fs_get] in Hcs.
+    destruct (s =? t) eqn:E; [apply N.eqb_eq in E; subst; injection Hcs as ->; left; reflexivity|right; apply IH; exact Hcs]. }
+  exists cs. split; [apply Hcand; exact Hincs|].
+  apply fs_ext.
+  - rewrite Hn. symmetry. eapply names_fs_set_present; eassumption.
+  - apply ksorted_fs_set. exact Hs.
+  - intros t c Htc. rewrite fs_get_set. destruct (t =? s) eqn:E.
+    + apply N.eqb_eq in E. subst t. f_equal. eapply keys_unique; eassumption.
+    + assert (Hint : In t (names d)) by (rewrite <- Hn; apply in_map_iff; exists (t, c); split; [reflexivity|exact Htc]).
+      destruct (in_names_fs_get _ _ Hint) as (b & Hb). rewrite Hb. f_equal.
+      apply N.eqb_neq in E. pose proof (Hcand t c Htc) as Hc. rewrite (Ho t b E Hb) in Hc. symmetry. apply cand_single. exact Hc.
+Qed.
+
+Lemma cand_pair_shorter (c c' x : bytes) : (length c' < length c)%nat -> cand [c; c'] x -> x = c \/ x = c'.
+Proof.
+  intros Hl H. inversion H; subst.
+  - left. reflexivity.
+  - exfalso. rewrite app_length in Hl. lia.
+  - right. apply cand_single. assumption.
+Qed.
+
+Lemma block_truncsync s n P d :
+  pclean P -> p_vol P = d -> (exists c, fs_get d s = Some c /\ n < blen c) -> block_result (BTruncSync s n) P d.
+Proof.
+  intros Hc Hv (c & Hg & Hn). destruct Hc as [Hd Hs Hf]. rewrite Hv in *.
+  set (c' := firstn (N.to_nat n) c).
+  assert (Hlen : (length c' < length c)%nat) by (unfold c', blen in *; rewrite firstn_length; lia).
+  assert (E1 : papply P (MTruncate s n) = mkP (fs_set d s c') (p_dirs P) (fh_set (p_files P) s (p_files P s ++ [c']))).
+  { unfold papply. rewrite Hv, Hg. cbn [apply_mut]. unfold fs_upd. rewrite Hg. reflexivity. }
+  assert (Hvol1 : apply_mut d (MTruncate s n) = fs_set d s c') by (cbn [apply_mut]; unfold fs_upd; rewrite Hg; reflexivity).
+  assert (E2 : run_pfs P (tmuts s n) = mkP (fs_set d s c') (p_dirs P) (fh_set (fh_set (p_files P) s (p_files P s ++ [c'])) s [c'])).
+  { unfold tmuts. cbn [run_pfs fold_left]. rewrite E1. unfold papply. cbn [p_vol p_dirs p_files apply_mut].
+    rewrite fs_get_set, N.eqb_refl. reflexivity. }
+  assert (Hcl2 : pclean (run_pfs P (tmuts s n))).
+  { rewrite E2. split; cbn [p_vol p_dirs p_files].
+    - rewrite Hd. f_equal. symmetry. eapply names_fs_set_present; eassumption.
+    - apply ksorted_fs_set. exact Hs.
+    - intros t b Hb. rewrite fs_get_set in Hb. unfold fh_set. destruct (t =? s) eqn:E.
+      + injection Hb as <-. reflexivity.
+      + apply Hf. exact Hb. }
+  assert (Hvol2 : apply_muts d (tmuts s n) = fs_set d s c').
+  { unfold tmuts, apply_muts. cbn [fold_left]. rewrite Hvol1. reflexivity. }
+  unfold block_result. cbn [block_muts].
+  split; [|split; [exact Hcl2|rewrite E2; cbn [p_vol]; symmetry; exact Hvol2]].
+  intros j d' Hj Hcc. unfold tmuts in Hj. cbn [length] in Hj.
+  destruct j as [|[|[|j]]]; [| | |lia].
+  - cbn [firstn run_pfs fold_left] in Hcc.
+    pose proof (clean_states P d' (Build_pclean P ltac:(rewrite Hv; exact Hd) ltac:(rewrite Hv; exact Hs) ltac:(rewrite Hv; exact Hf)) Hcc) as E.
+    apply (in_prefix_none _ _ 0%nat); [cbn; lia|]. rewrite E, Hv. reflexivity.
+  - (* the ftruncate has been issued, its fsync has not: the old or the new content survives *)
+    unfold tmuts in Hcc. cbn [firstn run_pfs fold_left] in Hcc. rewrite E1 in Hcc.
+    assert (Ho1 : forall t b, t <> s -> fs_get d t = Some b -> fh_set (p_files P) s (p_files P s ++ [c']) t = [b]).
+    { intros t b Hne Hb. unfold fh_set. assert (E : (t =? s) = false) by (apply N.eqb_neq; exact Hne). rewrite E. apply Hf. exact Hb. }
+    destruct (file_states (mkP (fs_set d s c') (p_dirs P) (fh_set (p_files P) s (p_files P s ++ [c']))) d s c d' Hd Hs Hg Ho1 Hcc)
+      as (x & Hx & ->). cbn [p_files] in Hx.
+    unfold fh_set in Hx. rewrite N.eqb_refl, (Hf s c Hg) in Hx. cbn [app] in Hx.
+    destruct (cand_pair_shorter c c' x Hlen Hx) as [-> | ->].
+      * apply (in_prefix_none _ _ 0%nat); [cbn; lia|]. rewrite crash_fs_none. cbn [firstn]. unfold apply_muts. cbn [fold_left].
+        apply fs_set_same; assumption.
+      * apply (in_prefix_none _ _ 1%nat); [cbn; lia|]. rewrite crash_fs_none. unfold tmuts. cbn [firstn]. unfold apply_muts. cbn [fold_left].
+        symmetry. exact Hvol1.
+  - change (firstn 2 (tmuts s n)) with (tmuts s n) in Hcc.
+    pose proof (clean_states _ d' Hcl2 Hcc) as E. rewrite E2 in E. cbn [p_vol] in E.
+    apply (in_prefix_none _ _ 2%nat); [cbn; lia|]. rewrite crash_fs_none. change (firstn 2 (tmuts s n)) with (tmuts s n).
+    rewrite Hvol2. exact E.
+Qed.
+
 (* ---------- sequences of blocks ---------- *)
 Lemma block_power b P d : pclean P -> p_vol P = d -> block_ok d b -> block_result b P d.
 Proof.
-  intros Hc Hv Hok. destruct b as [s|s|s xs].
+  intros Hc Hv Hok. destruct b as [s|s|s xs|s n].
   - apply block_create; assumption.
   - apply block_unlink; assumption.
   - apply block_writes; assumption.
+  - apply block_truncsync; assumption.
 Qed.
 
 Lemma in_prefix_app_l d mb mr d' : in_prefix d mb d' -> in_prefix d (mb ++ mr) d'.
@@ -613,6 +694,17 @@ Proof. induction seqs as [|s r IH]; intros d; [exact I|]. cbn [map blocks_ok blo
 Lemma writes_block s recs : map (wr s) recs ++ [MSync s] = block_muts (BWrites s (map serialize recs)).
 Proof. cbn [block_muts]. rewrite map_map. reflexivity. Qed.
 
+Lemma blocks_muts_app a b : blocks_muts (a ++ b) = blocks_muts a ++ blocks_muts b.
+Proof. unfold blocks_muts. rewrite map_app, concat_app. reflexivity. Qed.
+
+Lemma blocks_ok_app : forall a b d,
+  blocks_ok d a -> blocks_ok (apply_muts d (blocks_muts a)) b -> blocks_ok d (a ++ b).
+Proof.
+  induction a as [|x a IH]; intros b d Ha Hb; [exact Hb|].
+  destruct Ha as [Hx Ha]. cbn [app blocks_ok]. split; [exact Hx|]. apply IH; [exact Ha|].
+  change (blocks_muts (x :: a)) with (block_muts x ++ blocks_muts a) in Hb. rewrite apply_muts_app in Hb. exact Hb.
+Qed.
+
 Definition op_form (maxsz : N) (lv : live) (op : wal_op) : Prop :=
   exists bs, op_muts repaired maxsz lv op = blocks_muts bs /\ blocks_ok (lv_fs lv) bs /\
              apply_muts (lv_fs lv) (op_muts repaired maxsz lv op) = lv_fs (step_live repaired maxsz lv op).
@@ -622,10 +714,9 @@ Lemma op_form_nil maxsz lv op :
 Proof. intros E1 E2. exists []. rewrite E1, E2. repeat split. Qed.
 
 Lemma op_has_form maxsz lv op :
-  0 < maxsz -> good maxsz lv -> valid_op op ->
-  (forall k, op = OTruncate k -> existsb is_ftruncate (op_muts repaired maxsz lv op) = false) -> op_form maxsz lv op.
+  0 < maxsz -> good maxsz lv -> valid_op op -> op_form maxsz lv op.
 Proof.
-  intros Hm [->|(l & s0 & gs & Hl & Hinv)] Hvo Hnf0.
+  intros Hm [->|(l & s0 & gs & Hl & Hinv)] Hvo.
   - (* before the log exists *)
     destruct op as [recs|k|k|]; try (apply op_form_nil; reflexivity).
     exists [BCreate 0]. unfold op_muts, step_live, op_run. cbn [lv_log lv_fs lv_acked]. rewrite open_log_empty_dir.
@@ -681,13 +772,10 @@ Proof.
           change (to_wire r0 :: map to_wire rest) with (map to_wire (r0 :: rest)).
           rewrite Hids. reflexivity. }
         apply op_form_nil; unfold op_muts, step_live, op_run; cbn [lv_log lv_fs lv_acked]; rewrite E; reflexivity.
-    + (* Truncate that does not cut inside a file *)
-      pose proof (Hnf0 k eq_refl) as Hnf.
-      destruct (truncate_step maxsz l d acked s0 gs k Hinv) as (l' & T & Estep & _ & HT & HT0 & _).
-      unfold op_form, op_muts, step_live, op_run in *. cbn [lv_log lv_fs lv_acked] in *. rewrite Estep in *. cbn [snd lv_fs] in *.
-      destruct HT as [-> | ->].
-      2:{ rewrite existsb_app in Hnf. cbn in Hnf. rewrite orb_true_r in Hnf. discriminate Hnf. }
-      rewrite (HT0 eq_refl), app_nil_r.
+    + (* Truncate: unlinks from the back, then possibly ftruncate + fsync of the kept file *)
+      pose proof (li_clean _ _ _ _ _ _ Hinv) as Hc. pose proof (li_gf _ _ _ _ _ _ Hinv) as Hgf.
+      destruct (truncate_step maxsz l d acked s0 gs k Hinv) as (l' & T & Estep & _ & HT & HT0 & HT1).
+      unfold op_form, op_muts, step_live, op_run. cbn [lv_log lv_fs lv_acked]. rewrite Estep. cbn [snd lv_fs].
       set (n := gfc_idx k gs) in *.
       pose proof (gfc_idx_lt k gs Hne) as Hn. fold n in Hn.
       set (G := firstn n gs) in *. set (gn := nth n gs []) in *. set (D := skipn (S n) gs) in *.
@@ -695,8 +783,22 @@ Proof.
       { unfold G, gn, D. rewrite <- (firstn_S_nth gs n [] Hn). symmetry. apply firstn_skipn. }
       assert (HlenK : length (G ++ [gn]) = S n).
       { rewrite app_length. unfold G. rewrite firstn_length. cbn [length]. lia. }
-      eexists. split; [apply unlinks_blocks|]. split; [apply unlinks_ok|].
-      rewrite Hd. rewrite Egs at 1. rewrite <- HlenK. apply apply_unlinks_back. destruct G; discriminate.
+      assert (HlenG : length G = n) by (unfold G; rewrite firstn_length; lia).
+      set (seqs := rev (map fi_seq (infos_of (s0 + N.of_nat (S n)) D))) in *.
+      assert (HU : apply_muts d (flat_map unlink_pair seqs) = dir_of s0 (G ++ [gn]) []).
+      { rewrite Hd. rewrite Egs at 1. unfold seqs. rewrite <- HlenK. apply apply_unlinks_back. destruct G; discriminate. }
+      destruct HT as [-> | ->].
+      * rewrite (HT0 eq_refl), app_nil_r.
+        exists (map BUnlink seqs). split; [apply unlinks_blocks|]. split; [apply unlinks_ok|exact HU].
+      * destruct (truncate_facts k gs Hc Hgf) as [_ (restgn & Hrest)]. fold n gn in Hrest.
+        assert (HT1' : blen (file_of (keep_le k gn)) < blen (file_of gn)) by (apply HT1; unfold tmuts; discriminate).
+        exists (map BUnlink seqs ++ [BTruncSync (s0 + N.of_nat n) (blen (file_of (keep_le k gn)))]).
+        split; [|split].
+        -- rewrite blocks_muts_app, <- unlinks_blocks. cbn [blocks_muts map concat block_muts]. rewrite app_nil_r. reflexivity.
+        -- apply blocks_ok_app; [apply unlinks_ok|]. rewrite <- unlinks_blocks, HU. cbn [blocks_ok block_ok]. split; [|exact I].
+           exists (file_of gn). split; [|exact HT1']. rewrite <- HlenG, fs_get_dir_last, app_nil_r. reflexivity.
+        -- rewrite apply_muts_app, HU. unfold tmuts, apply_muts. cbn [fold_left apply_mut].
+           rewrite <- HlenG. rewrite Hrest at 1. apply fs_truncate_last.
     + (* Trim *)
       unfold op_form, op_muts, step_live, op_run. cbn [lv_log lv_fs lv_acked].
       rewrite (trim_step maxsz l d acked s0 gs k Hinv). cbn [snd lv_fs].
@@ -842,51 +944,37 @@ Lemma pclean_empty : pclean (pclean_of []).
 Proof. split; cbn; [reflexivity|exact I|intros s b H; discriminate H]. Qed.
 
 Lemma scen_inv maxsz : forall ops lv P,
-  0 < maxsz -> good maxsz lv -> pclean P -> p_vol P = lv_fs lv ->
-  Forall valid_op ops -> no_ftruncate repaired maxsz lv ops ->
+  0 < maxsz -> good maxsz lv -> pclean P -> p_vol P = lv_fs lv -> Forall valid_op ops ->
   good maxsz (fold_left (step_live repaired maxsz) ops lv) /\
   pclean (scenario_pfs repaired maxsz lv P ops) /\
   p_vol (scenario_pfs repaired maxsz lv P ops) = lv_fs (fold_left (step_live repaired maxsz) ops lv).
 Proof.
-  induction ops as [|op ops IH]; intros lv P Hm Hg Hc Hv Hvo Hnf; [cbn [fold_left scenario_pfs]; split; [exact Hg|split; [exact Hc|exact Hv]]|].
-  inversion Hvo as [|? ? Ho Hrest]; subst. destruct Hnf as [Hn1 Hn2].
+  induction ops as [|op ops IH]; intros lv P Hm Hg Hc Hv Hvo;
+    [cbn [fold_left scenario_pfs]; split; [exact Hg|split; [exact Hc|exact Hv]]|].
+  inversion Hvo as [|? ? Ho Hrest]; subst.
   cbn [fold_left scenario_pfs].
-  destruct (op_has_form maxsz lv op Hm Hg Ho (fun _ _ => Hn1)) as (bs & Ems & Hok & Happ).
+  destruct (op_has_form maxsz lv op Hm Hg Ho) as (bs & Ems & Hok & Happ).
   destruct (pl_blocks bs P (lv_fs lv) Hc Hv Hok) as (_ & Hc' & Hv').
   rewrite <- Ems in Hc', Hv'. rewrite Happ in Hv'.
   apply IH; try assumption. apply step_good_all; assumption.
 Qed.
 
-Lemma no_ftruncate_prefix maxsz : forall ops lv i op,
-  no_ftruncate repaired maxsz lv ops -> nth_error ops i = Some op ->
-  no_ftruncate repaired maxsz lv (firstn i ops) /\
-  existsb is_ftruncate (op_muts repaired maxsz (fold_left (step_live repaired maxsz) (firstn i ops) lv) op) = false.
-Proof.
-  induction ops as [|o ops IH]; intros lv i op Hnf Hn; [destruct i; discriminate Hn|].
-  destruct Hnf as [H1 H2]. destruct i as [|i].
-  - cbn in Hn. injection Hn as <-. cbn [firstn fold_left no_ftruncate]. split; [exact I|exact H1].
-  - cbn [nth_error] in Hn. cbn [firstn fold_left no_ftruncate].
-    destruct (IH (step_live repaired maxsz lv o) i op H2 Hn) as [Ha Hb]. split; [split; assumption|exact Hb].
-Qed.
-
-(* power-loss safety of the repaired code, for every scenario in which no ftruncate is issued *)
-Theorem powerloss_no_ftruncate :
+(* power-loss safety of the code as it stands (with the fsync after ftruncate): every scenario, every crash point,
+   every crash_cache state *)
+Theorem powerloss_all :
   forall (maxsz : N) (ops : list wal_op) (i j : nat),
-    0 < maxsz -> Forall valid_op ops ->
-    no_ftruncate repaired maxsz (mkLive None [] []) ops ->
-    powerloss_at repaired maxsz ops i j.
+    0 < maxsz -> Forall valid_op ops -> powerloss_at repaired maxsz ops i j.
 Proof.
-  intros maxsz ops i j Hm Hv Hnf. unfold powerloss_at.
+  intros maxsz ops i j Hm Hv. unfold powerloss_at.
   destruct (nth_error ops i) as [op|] eqn:En; [|exact I].
-  destruct (no_ftruncate_prefix maxsz ops _ i op Hnf En) as [Hnf1 Hnf2].
   assert (Hv1 : Forall valid_op (firstn i ops)) by (apply Forall_firstn'; exact Hv).
   destruct (scen_inv maxsz (firstn i ops) (mkLive None [] []) (pclean_of []) Hm ltac:(left; reflexivity)
-              pclean_empty eq_refl Hv1 Hnf1) as (Hg & Hc & Hvol).
-  fold (run_ops repaired maxsz (firstn i ops)) in Hg, Hvol, Hnf2.
+              pclean_empty eq_refl Hv1) as (Hg & Hc & Hvol).
+  fold (run_ops repaired maxsz (firstn i ops)) in Hg, Hvol.
   set (lv := run_ops repaired maxsz (firstn i ops)) in *.
   set (P := scenario_pfs repaired maxsz (mkLive None [] []) (pclean_of []) (firstn i ops)) in *.
   assert (Hvo : valid_op op) by (rewrite Forall_forall in Hv; apply Hv; eapply nth_error_In; eassumption).
-  destruct (op_has_form maxsz lv op Hm Hg Hvo (fun _ _ => Hnf2)) as (bs & Ems & Hok & _).
+  destruct (op_has_form maxsz lv op Hm Hg Hvo) as (bs & Ems & Hok & _).
   destruct (pl_blocks bs P (lv_fs lv) Hc Hvol Hok) as (Hst & _ & _).
   rewrite <- Ems in Hst.
   intros Hj d' Hcc.
@@ -896,7 +984,7 @@ Proof.
   apply H; assumption.
 Qed.
 
-(* ---------- the carved-out case: logFile.Truncate does not fsync after ftruncate ---------- *)
+(* ---------- regression witness for F25: the code before 09d27e0 (no fsync after the ftruncate) ---------- *)
 Definition pa1 : record := mkRec 1 (repeat 7 30).
 Definition pa2 : record := mkRec 2 [8].
 Definition pa3 : record := mkRec 3 [9].
@@ -929,7 +1017,7 @@ Proof.
   apply Forall_cons; [exact I|]. apply Forall_nil.
 Qed.
 
-Definition pl_P : pfs := scenario_pfs repaired 40 (mkLive None [] []) (pclean_of []) (firstn 4 pl_ops).
+Definition pl_P : pfs := scenario_pfs repaired_nots 40 (mkLive None [] []) (pclean_of []) (firstn 4 pl_ops).
 
 Lemma pl_P_dirs : p_dirs pl_P = [[0; 1]].
 Proof. vm_compute. reflexivity. Qed.
@@ -950,9 +1038,9 @@ Proof.
   - rewrite H1. apply cand_here.
 Qed.
 
-Lemma pl_state_bad : ~ crash_ok repaired 40 pl_state
-                         (must_of OReopen (lv_acked (run_ops repaired 40 (firstn 4 pl_ops))))
-                         (may_of OReopen (lv_acked (run_ops repaired 40 (firstn 4 pl_ops)))).
+Lemma pl_state_bad : ~ crash_ok repaired_nots 40 pl_state
+                         (must_of OReopen (lv_acked (run_ops repaired_nots 40 (firstn 4 pl_ops))))
+                         (may_of OReopen (lv_acked (run_ops repaired_nots 40 (firstn 4 pl_ops)))).
 Proof.
   intros (l & d' & ms & recs & Hopen & Hit & Hgf & _).
   vm_compute in Hopen. inversion Hopen; subst; clear Hopen.
@@ -960,12 +1048,12 @@ Proof.
   vm_compute in Hgf. discriminate Hgf.
 Qed.
 
-Lemma pl_refuted : ~ powerloss_at repaired 40 pl_ops 4 0.
+Lemma pl_refuted : ~ powerloss_at repaired_nots 40 pl_ops 4 0.
 Proof.
   unfold powerloss_at. change (nth_error pl_ops 4) with (Some OReopen). cbv beta iota zeta.
   intros H. apply pl_state_bad. apply (H (Nat.le_0_l _)). exact pl_state_possible.
 Qed.
 
 Lemma pl_refuted_packed :
-  exists maxsz ops i j, 0 < maxsz /\ Forall valid_op ops /\ ~ powerloss_at repaired maxsz ops i j.
+  exists maxsz ops i j, 0 < maxsz /\ Forall valid_op ops /\ ~ powerloss_at repaired_nots maxsz ops i j.
 Proof. exists 40, pl_ops, 4%nat, 0%nat. split; [reflexivity|]. split; [exact pl_valid|exact pl_refuted]. Qed.
